@@ -302,6 +302,7 @@ func pcWrite(path string, tree *ptMode, term *tmMode) error {
 	}
 	if term != nil {
 		targets = termTargets
+		term.l = l
 	}
 	for _, t := range targets {
 		key := t.name
